@@ -468,4 +468,4 @@ def _idle(c, o):
 reg(Row("IdleMomentsGauge", ("IdleMomentsGauge",), _idle,
         opts=st.fixed_dictionaries({"seed": st.integers(0, 2 ** 31), "gen": st.booleans(), "g": st.integers(0, 3), "min": st.integers(0, 2),
                                     "b": st.booleans(), "e": st.booleans()}),
-        unitary=U(sub=0.05, max_arity=2), records=M(sub=0.05, chan=0.03, meas_arity=(1, 2, 2, 2, 3)), deep=False, weight=4))
+        unitary=U(sub=0.05, max_arity=2), records=M(sub=0.05), deep=False, weight=4))
